@@ -88,6 +88,15 @@ func c15Marshaler(cs c15Case) cqrs.CommandEventMarshaler {
 // values of the type family (index 1, 2 = registered types, 3 = a type nobody handles)
 func c15Value(cs c15Case, t int, k int) any {
 	if cs.Codec == "proto" {
+		if k%7 == 3 {
+			// the zero value of the type (an "empty" signal: no bytes on the wire) is a value like any other
+			switch t {
+			case 1:
+				return wrapperspb.String("")
+			case 2:
+				return durationpb.New(0)
+			}
+		}
 		switch t {
 		case 1:
 			return wrapperspb.String(fmt.Sprintf("v%d \"quoted\" é世 \x01", k))
@@ -438,10 +447,21 @@ func c15Run(r *tr.Run, cs c15Case) {
 		return
 	}
 	type c15CtxKey struct{}
+	pubFail := false
+	pub.Fn = func(int, string, []*message.Message) error {
+		if pubFail {
+			return errors.New("scripted publisher failure")
+		}
+		return nil
+	}
 	for t := 1; t <= 3; t++ {
-		for which := 0; which < 6; which++ {
+		for which := 0; which < 8; which++ {
 			v := c15Value(cs, t, 10+t+7*(which/2)) // several values of each type: the topic is generated per message
 			hookMode = []string{"none", "mark", "fail"}[(t+which/2)%3]
+			pubFail = which >= 6 // the publisher refuses: offered once, the error goes to the caller
+			if pubFail && hookMode == "fail" {
+				hookMode = "none"
+			}
 			before := len(pub.Calls())
 			sendCtx := context.WithValue(context.Background(), c15CtxKey{}, which)
 			var e error
@@ -466,7 +486,7 @@ func c15Run(r *tr.Run, cs c15Case) {
 				ctxok = pm.Context().Value(c15CtxKey{}) == which
 			}
 			r.Emit("bus", "calls", len(calls), "topic", topic, "name", name, "exptopic", topicOf(c15ExpName(cs, v))+"/"+c15Shard(v), "expname", c15ExpName(cs, v), "roundtrip", round,
-				"hook", hookMode, "marked", marked, "ctxok", ctxok, "err", e != nil)
+				"hook", hookMode, "marked", marked, "ctxok", ctxok, "err", e != nil, "pubfail", pubFail)
 		}
 	}
 	r.NonTrivial = len(cs.Registry) >= 2
